@@ -285,3 +285,51 @@ def check_closure_capture(ctx, rep, rule, funcs=None):
                     else:
                         rep.ok(rule, desc + " binds what it needs at creation")
     return n
+
+
+# ---------------------------------------------------------------------------
+def check_swapped_args(ctx, rep, rule, callee_pred):
+    """Argument / parameter agreement: a positional argument that is a plain
+    variable named like *another* parameter of the callee (while that
+    parameter receives something else) is a swapped argument."""
+    from ..valueflow import arg_for
+    n = 0
+    for q, evs in ctx.cg.events.items():
+        for ev in evs:
+            if ev.kind != "call":
+                continue
+            for t in ev.targets:
+                if t.kind != "repo" or not callee_pred(t.func):
+                    continue
+                g = t.func
+                params = g.params[1:] if t.detail in ("bound", "ctor", "call") and g.params else g.params
+                call = ev.node
+                if any(isinstance(a, ast.Starred) for a in call.args):
+                    continue
+                n += 1
+                bound = {}
+                for i, a in enumerate(call.args):
+                    if i < len(params):
+                        bound[params[i]] = a
+                for kw in call.keywords:
+                    if kw.arg:
+                        bound[kw.arg] = kw.value
+                bad = None
+                for p, a in bound.items():
+                    nm = a.id if isinstance(a, ast.Name) else (a.attr if isinstance(a, ast.Attribute) else None)
+                    if nm is None or nm == p or nm.lstrip("_") == p.lstrip("_"):
+                        continue
+                    if nm in params or nm.lstrip("_") in params:
+                        other = nm if nm in params else nm.lstrip("_")
+                        oa = bound.get(other)
+                        onm = oa.id if isinstance(oa, ast.Name) else (oa.attr if isinstance(oa, ast.Attribute) else None)
+                        if oa is None or onm is None or (onm != other and onm.lstrip("_") != other):
+                            bad = (p, nm, other)
+                desc = f"{ev.func.local}:{ev.line} {g.local}({', '.join(norm(a)[:14] for a in call.args)[:70]})"
+                if bad:
+                    rep.bad(rule, desc)
+                    rep.finding(rule, ev.func, ev.text()[:140], ev.line,
+                                f"argument `{bad[1]}` is passed for parameter `{bad[0]}` of {g.local} while parameter `{bad[2]}` receives something else: arguments swapped")
+                else:
+                    rep.ok(rule, desc + " arguments agree with the parameter names")
+    return n
